@@ -13,11 +13,15 @@ import (
 	"context"
 	"errors"
 	"fmt"
+	"net/http"
+	"net/http/httptest"
 	"os"
 	"path/filepath"
 	"strings"
 	"testing"
+	"time"
 
+	"github.com/ipfs/boxo/blockstore"
 	dshelp "github.com/ipfs/boxo/datastore/dshelp"
 	"github.com/ipfs/boxo/filestore"
 	pb "github.com/ipfs/boxo/filestore/pb"
@@ -32,16 +36,32 @@ import (
 
 func str(s string) string { return vh.BytesN([]byte(s)) }
 
+type flags struct{ putFiles, putUrls, getFiles, getUrls bool }
+
+func (f flags) String() string {
+	return fmt.Sprintf("put(files=%v,urls=%v) get(files=%v,urls=%v)", f.putFiles, f.putUrls, f.getFiles, f.getUrls)
+}
+
+var allOn = flags{true, true, true, true}
+
 type obs struct {
 	root, path string
-	kind       string // FRegular FMissing FOther: what opening+reading the lexically cleaned FullPath gives
-	accepted   bool
+	fl         flags
+	put        string // PStored / PRejected / PNotEnabled
 	stored     string
+	kind       string // FRegular FMissing FOther: what opening+reading the local path Join(root, stored) gives
+	fetch      string // what fetching the stored string as a URL gives
 	get        string
+	verify     string
 }
 
 func (o obs) coq() string {
-	return vh.App("Case", strLit(o.root), strLit(o.path), o.kind, vh.Bool(o.accepted), strLit(o.stored), o.get)
+	put := o.put
+	if put == "PStored" {
+		put = vh.App("PStored", strLit(o.stored))
+	}
+	return vh.App("Case", strLit(o.root), strLit(o.path), vh.Bool(o.fl.putFiles), vh.Bool(o.fl.putUrls), put,
+		vh.Bool(o.fl.getFiles), vh.Bool(o.fl.getUrls), o.kind, o.fetch, o.get, o.verify)
 }
 
 // strLit renders a string as a list of N character codes (N_scope is open in the preamble).
@@ -77,23 +97,42 @@ func kindOf(p string) (string, []byte) {
 
 var counter int
 
-// try runs one Put (+ datastore lookup + Get) on a fresh FileManager.
-func try(t *testing.T, root, full string) obs {
-	ctx := context.Background()
+// bodies served by the harness' HTTP server, by request path
+var served = map[string][]byte{}
+var srvURL string
+
+// try runs one Put on a fresh FileManager under the Put-time flags, reads the stored reference back
+// from the datastore, switches to the read-time flags (same datastore) and runs Get and Verify.
+func try(t *testing.T, root, full string, fl flags) obs {
+	ctx, cancel := context.WithTimeout(context.Background(), 4*time.Second)
+	defer cancel()
 	mds := ds.NewMapDatastore()
 	fm := filestore.NewFileManager(mds, root)
-	fm.AllowFiles = true
+	fm.AllowFiles, fm.AllowUrls = fl.putFiles, fl.putUrls
 
-	kind, data := kindOf(full)
-	o := obs{root: root, path: full, kind: kind, get: "GNone"}
-	if kind != "FRegular" {
+	// the local path a file read of this reference would open: Join(root, stored) — for a file
+	// reference the cleaned FullPath, for a URL-shaped one Join(root, <the URL string>)
+	local := filepath.Clean(full)
+	isURL := filestore.IsURL(full)
+	if isURL {
+		local = filepath.Join(root, full)
+	}
+	kind, data := kindOf(local)
+	o := obs{root: root, path: full, fl: fl, kind: kind, fetch: "GOther", get: "GNone", verify: "GNone"}
+	if isURL && strings.HasPrefix(full, srvURL+"/") {
+		if b, ok := served[strings.TrimPrefix(full, srvURL)]; ok {
+			data, o.fetch = b, "GSame"
+		}
+	}
+	if data == nil {
 		counter++
 		data = []byte(fmt.Sprintf("absent-%d", counter))
 	}
 	node := dag.NewRawNode(data)
 	err := fm.Put(ctx, &posinfo.FilestoreNode{Node: node, PosInfo: &posinfo.PosInfo{FullPath: full, Offset: 0}})
-	o.accepted = err == nil
-	if o.accepted {
+	switch {
+	case err == nil:
+		o.put = "PStored"
 		raw, err := mds.Get(ctx, filestore.FilestorePrefix.Child(dshelp.MultihashToDsKey(node.Cid().Hash())))
 		if err != nil {
 			t.Fatalf("accepted reference not found in the datastore: %v", err)
@@ -103,7 +142,13 @@ func try(t *testing.T, root, full string) obs {
 			t.Fatal(err)
 		}
 		o.stored = dobj.GetFilePath()
+	case errors.Is(err, filestore.ErrFilestoreNotEnabled), errors.Is(err, filestore.ErrUrlstoreNotEnabled):
+		o.put = "PNotEnabled"
+	default:
+		o.put = "PRejected"
 	}
+	// a later run over the same datastore, possibly configured differently
+	fm.AllowFiles, fm.AllowUrls = fl.getFiles, fl.getUrls
 	blk, err := fm.Get(ctx, node.Cid())
 	var cre *filestore.CorruptReferenceError
 	switch {
@@ -111,14 +156,29 @@ func try(t *testing.T, root, full string) obs {
 		o.get = "GSame"
 	case err == nil:
 		o.get = "GOther"
-	case !o.accepted && ipld.IsNotFound(err):
+	case ipld.IsNotFound(err):
 		o.get = "GNone"
+	case errors.Is(err, filestore.ErrFilestoreNotEnabled), errors.Is(err, filestore.ErrUrlstoreNotEnabled):
+		o.get = "GNotEnabled"
 	case errors.As(err, &cre) && cre.Code == filestore.StatusFileNotFound:
 		o.get = "GNotFound"
 	case errors.As(err, &cre) && cre.Code == filestore.StatusFileChanged:
 		o.get = "GChanged"
 	default:
 		o.get = "GOther"
+	}
+	fstore := filestore.NewFilestore(blockstore.NewBlockstore(mds), fm, nil)
+	switch res := filestore.Verify(ctx, fstore, node.Cid()); res.Status {
+	case filestore.StatusOk:
+		o.verify = "GSame"
+	case filestore.StatusFileNotFound:
+		o.verify = "GNotFound"
+	case filestore.StatusFileChanged:
+		o.verify = "GChanged"
+	case filestore.StatusKeyNotFound:
+		o.verify = "GNone"
+	default:
+		o.verify = "GOther"
 	}
 	return o
 }
@@ -152,7 +212,10 @@ func TestC41(t *testing.T) {
 	st := vh.NewStats("FileManager.Put/Get on a temporary tree: roots spelled absolutely/relatively, with trailing slash, '.', '..' and doubled " +
 		"slashes, the empty root, '.', '/' ; FullPaths inside the root, in siblings sharing the root's name as a string prefix (root-evil, rootx), " +
 		"behind '..' components, behind directory and file symlinks, absolute elsewhere, relative vs absolute mismatches, missing files; " +
-		"non-trivial = FullPath has the root string as a string prefix and contains a '..' component or a sibling-prefix name or a symlink; distinct by (root, path)")
+		"URL-shaped references (http://../.., https://..//x, http:///.., '..' path segments, near-misses: one slash, upper-case scheme) and genuine URLs of a local HTTP server; " +
+		"AllowFiles/AllowUrls chosen independently at Put time and at read time (same datastore); Get and Verify observed; " +
+		"non-trivial = FullPath has the root string as a string prefix and contains a '..' component or a sibling-prefix name or a symlink, " +
+		"or is URL-shaped with a '..' segment or with different urlstore settings at Put and read time; distinct by (root, path, flags)")
 	cs := vh.NewCases(e, "From V Require Import model.M_C41.\nOpen Scope N_scope.", "case", "check_case", 250)
 
 	// the tree: <T>/root{/a,/sub/b,/sub/deep/c,/link -> ../other,/flink -> ../root-evil/secret}, <T>/root-evil/secret, <T>/rootx, <T>/x, <T>/other/x
@@ -178,19 +241,31 @@ func TestC41(t *testing.T) {
 	t.Chdir(T)
 
 	physOutside := 0
-	emit := func(root, full, kind string) {
-		if symlinkThenDotDot(full) || strings.HasPrefix(full, "http") {
+	netTries := 0
+	emitF := func(root, full, kind string, fl flags) {
+		if symlinkThenDotDot(full) {
 			return
 		}
-		o := try(t, root, full)
-		rp := map[string]any{"root": root, "path": full, "accepted": o.accepted, "stored": o.stored, "get": o.get, "kind": kind}
+		if filestore.IsURL(full) && fl.getUrls && fl.putUrls && !strings.HasPrefix(full, srvURL+"/") {
+			// a hostile URL that the URL reader would really try to fetch (host ".."): only a few of those
+			netTries++
+			if netTries > 6 {
+				fl.getUrls = false
+			}
+		}
+		o := try(t, root, full, fl)
+		rp := map[string]any{"root": root, "path": full, "flags": fl.String(), "put": o.put, "stored": o.stored, "get": o.get, "verify": o.verify, "kind": kind}
 		cs.Add(o.coq(), rp)
-		nt := strings.HasPrefix(full, root) && (strings.Contains(full, "..") || strings.Contains(full, "root-evil") ||
-			strings.Contains(full, "rootx") || strings.Contains(full, "link"))
-		st.Case(root+"|"+full, nt)
+		nt := (strings.HasPrefix(full, root) && (strings.Contains(full, "..") || strings.Contains(full, "root-evil") ||
+			strings.Contains(full, "rootx") || strings.Contains(full, "link"))) ||
+			(filestore.IsURL(full) && (strings.Contains(full, "..") || fl.putUrls != fl.getUrls))
+		st.Case(root+"|"+full+"|"+fl.String(), nt)
 		st.Count("kind=" + kind)
-		st.Count(fmt.Sprintf("accepted=%v get=%s", o.accepted, o.get))
-		if o.accepted && o.get == "GSame" {
+		st.Count(fmt.Sprintf("put=%s get=%s", o.put, o.get))
+		if filestore.IsURL(full) {
+			st.Count("url-shaped " + fl.String())
+		}
+		if o.put == "PStored" && o.get == "GSame" && !filestore.IsURL(o.stored) {
 			// information only: where the bytes physically came from
 			if rr, err := filepath.EvalSymlinks(filepath.Join(root, o.stored)); err == nil {
 				if ra, err := filepath.Abs(rr); err == nil && !strings.HasPrefix(ra+"/", T+"/root/") {
@@ -200,9 +275,51 @@ func TestC41(t *testing.T) {
 		}
 		st.Sample(rp, 6)
 	}
+	emit := func(root, full, kind string) { emitF(root, full, kind, allOn) }
+
+	// an HTTP server for genuine URL references
+	served["/obj/a"] = []byte("served-a")
+	served["/obj/x/../b"] = []byte("served-dotdot-b")
+	served["/"] = []byte("served-root")
+	srv := httptest.NewServer(http.HandlerFunc(func(w http.ResponseWriter, r *http.Request) {
+		if b, ok := served[r.URL.Path]; ok {
+			w.WriteHeader(206)
+			w.Write(b)
+			return
+		}
+		w.WriteHeader(404)
+	}))
+	defer srv.Close()
+	srvURL = srv.URL
 
 	// corpus: the finding's witnesses first, then boundary spellings
 	R := T + "/root"
+	// the seeded scenario: a URL-shaped reference made of ".." segments is stored while the urlstore is on; the same
+	// datastore is later read with the urlstore off and the filestore on
+	up := func(n int) string { return strings.Repeat("../", n) }
+	abs := func(p string) string { return strings.TrimPrefix(p, "/") }
+	later := flags{true, true, true, false}
+	emitF(R, "http://"+up(64)+abs(T+"/root-evil/secret"), "corpus", later)
+	emitF(R, "http://../../root-evil/secret", "corpus", later)
+	emitF(R, "https://../../x", "corpus", later)
+	emitF(R, "http://../a", "corpus", later)
+	emitF(R, "https://..//..//other/x", "corpus", later)
+	emitF(R, "http:///../../rootx", "corpus", later)
+	emitF(R, "http://../../root-evil/secret", "corpus", flags{true, true, false, false})
+	emitF(R, "http://../../root-evil/secret", "corpus", flags{false, true, true, false})
+	emitF(R, "http://../../root-evil/secret", "corpus", flags{true, false, true, true})
+	emitF(R, "http://../../root-evil/secret", "corpus", allOn)
+	emitF(R, "http:/../../root-evil/secret", "corpus", later)  // not a URL: one slash
+	emitF(R, "HTTP://../../root-evil/secret", "corpus", later) // not a URL: case
+	emitF("", "HTTP://../x", "corpus", later)
+	emitF("", "http://../x", "corpus", later)
+	emitF(R, srvURL+"/obj/a", "corpus", allOn)
+	emitF(R, srvURL+"/obj/a", "corpus", later)
+	emitF(R, srvURL+"/obj/x/../b", "corpus", allOn)
+	emitF(R, srvURL+"/missing", "corpus", allOn)
+	emitF(R, R+"/a", "corpus", flags{true, true, false, true})
+	emitF(R, R+"/a", "corpus", flags{false, true, true, true})
+	emitF(R, R+"/a", "corpus", flags{true, false, true, false})
 	emit(R, T+"/root-evil/secret", "corpus")
 	emit(R, R+"/../x", "corpus")
 	emit(R, T+"/rootx", "corpus")
@@ -298,7 +415,33 @@ func TestC41(t *testing.T) {
 		if e.Rng.Intn(10) == 0 {
 			b.WriteString(tails[e.Rng.Intn(len(tails))])
 		}
-		emit(root, b.String(), "random")
+		fl := allOn
+		if e.Rng.Intn(4) == 0 {
+			fl = flags{e.Rng.Intn(4) != 0, e.Rng.Intn(2) == 0, e.Rng.Intn(4) != 0, e.Rng.Intn(2) == 0}
+		}
+		full := b.String()
+		if e.Rng.Intn(5) == 0 {
+			// URL-shaped (or nearly URL-shaped) references: stored verbatim when the urlstore is on
+			scheme := []string{"http://", "https://", "http://", "http:///", "https://..//", "http:/", "HTTP://", "Http://", "https:/", "http//", "htt://", "http://x/"}[e.Rng.Intn(12)]
+			var u strings.Builder
+			u.WriteString(scheme)
+			u.WriteString(up(e.Rng.Intn(5)))
+			switch e.Rng.Intn(6) {
+			case 0:
+				u.WriteString(abs(T) + "/")
+			case 1:
+				u.WriteString("root/")
+			case 2:
+				u.WriteString(up(60) + abs(T) + "/")
+			}
+			u.WriteString([]string{"a", "x", "root-evil/secret", "rootx", "other/x", "sub/b", "root/a", "missing", "", "..", "link/x"}[e.Rng.Intn(11)])
+			full = u.String()
+			if e.Rng.Intn(8) == 0 {
+				full = srvURL + []string{"/obj/a", "/obj/x/../b", "/", "/nothing"}[e.Rng.Intn(4)]
+			}
+			fl = flags{e.Rng.Intn(4) != 0, e.Rng.Intn(4) != 0, e.Rng.Intn(4) != 0, e.Rng.Intn(3) == 0}
+		}
+		emitF(root, full, "random", fl)
 	}
 	st.Extra["accepted_lexically_inside_but_physically_outside_via_symlink"] = physOutside
 	cs.Close()
